@@ -86,6 +86,9 @@ def gen_lookup(rng, tier):
             vs = [[rng.choice(chroms), rng.choice([p for p in cand if p <= safe] or [1])] for _ in range(nv)]
         else:
             vs = [[rng.choice(chroms + ["9"]), rng.choice(cand + [50])] for _ in range(nv)]
+        if len(vs) % 7 == 3:
+            # a position far beyond every block, of a size only a 64-bit query array can hold (2^32 + a covered position): no block covers it
+            vs[rng.randrange(len(vs))] = [rng.choice(chroms), 2**32 + rng.choice([1, 2, 5])]
         names = [s["name"] for s in tbl]
         samples = None
         r = rng.random()
@@ -140,7 +143,8 @@ def snapshot(b):
 
 def impl_lookup(case):
     b = build(case["table"])
-    variants = np.array([(c, p) for c, p in case["vars"]], dtype=[("chrom", "U10"), ("pos", np.uint32)])
+    wide = any(p >= 2**32 for _, p in case["vars"])  # positions a 32-bit field cannot hold: the caller's array is 64 bits wide
+    variants = np.array([(c, p) for c, p in case["vars"]], dtype=[("chrom", "U10"), ("pos", np.int64 if wide else np.uint32)])
     samples = None if case["samples"] is None else tuple(case["samples"])
     out = {}
     r = C.guarded(lambda: b.population_array(variants, samples).tolist())
